@@ -1,16 +1,20 @@
 #!/bin/bash
-# confirm.sh <ID> <k> (env CONFIRM_ARGS = extra cargo args for the demonstration, CONFIRM_RUSTFLAGS): independently confirm a seeded mutant in its scratch worktree:
-# suite passes with the mutant; demo fails with it and passes without it.
-ID=$1; K=$2; WT=/tmp/wt/$ID; M=$WT/out/m$K
+# confirm.sh <ID> <k> [outdir]: independently confirm a seeded change in its scratch worktree /tmp/wt/<ID>:
+# the repository's suite passes with the change; the demonstration fails with it and passes without it.
+# Extra cargo arguments / RUSTFLAGS for the demonstration are taken from meta.json (demo_cargo_args,
+# demo_rustflags) or from the environment (CONFIRM_ARGS, CONFIRM_RUSTFLAGS).
+ID=$1; K=$2; WT=/tmp/wt/$ID; M=${3:-$WT/out/m$K}
 export CARGO_NET_OFFLINE=true CARGO_TARGET_DIR=$WT/target
 cd $WT || exit 9
+A=${CONFIRM_ARGS:-$(python3 -c "import json;print(json.load(open('$M/meta.json')).get('demo_cargo_args',''))" 2>/dev/null)}
+R=${CONFIRM_RUSTFLAGS:-$(python3 -c "import json;print(json.load(open('$M/meta.json')).get('demo_rustflags',''))" 2>/dev/null)}
 git checkout -q -- . ; rm -f tests/demo_confirm.rs
 git apply $M/patch.diff || { echo "APPLY_FAILED"; exit 8; }
 cargo test --workspace --no-fail-fast --offline > $M/suite.log 2>&1; SUITE=$?
 cp $M/demo.rs tests/demo_confirm.rs
-RUSTFLAGS="$CONFIRM_RUSTFLAGS" cargo test --offline $CONFIRM_ARGS --test demo_confirm > $M/demo_with.log 2>&1; WITH=$?
+RUSTFLAGS="$R" cargo test --offline $A --test demo_confirm > $M/demo_with.log 2>&1; WITH=$?
 git checkout -q -- .
-RUSTFLAGS="$CONFIRM_RUSTFLAGS" cargo test --offline $CONFIRM_ARGS --test demo_confirm > $M/demo_without.log 2>&1; WITHOUT=$?
+RUSTFLAGS="$R" cargo test --offline $A --test demo_confirm > $M/demo_without.log 2>&1; WITHOUT=$?
 rm -f tests/demo_confirm.rs
-echo "{\"suite_rc_with_mutant\": $SUITE, \"demo_rc_with_mutant\": $WITH, \"demo_rc_without\": $WITHOUT}" > $M/confirm.json
+echo "{\"suite_rc_with_mutant\": $SUITE, \"demo_rc_with_mutant\": $WITH, \"demo_rc_without\": $WITHOUT, \"demo_cargo_args\": \"$A\", \"demo_rustflags\": \"$R\"}" > $M/confirm.json
 cat $M/confirm.json
